@@ -244,7 +244,7 @@ def gen_eq(tier, rng, factidx):
                     EL, ER = ename(L, Ls, "i8"), ename(R, Rs, "i8")
                     ra, rb = "cnl::_impl::rep_of_t<%s>" % EL, "cnl::_impl::rep_of_t<%s>" % ER
                     A, B = erange(L, Ls), erange(R, Rs)
-                    pre_rng = ["a >= %s" % ("-%d" % -A[0] if A[0] else "0"), "a <= %d" % A[1], "b >= %s" % ("-%d" % -B[0] if B[0] else "0"), "b <= %d" % B[1]]
+                    pre_rng = ["a >= %s" % common.lit(A[0]), "a <= %s" % common.lit(A[1]), "b >= %s" % common.lit(B[0]), "b <= %s" % common.lit(B[1])]
                     for op in BIN:
                         f = factidx.get("bin/i8/%d%s%s%d%s" % (L, "s" if Ls else "u", op, R, "s" if Rs else "u"))
                         if f is None or f.value is None:
@@ -281,7 +281,7 @@ def gen_eq(tier, rng, factidx):
                     EL = ename(L, Ls, fam)
                     ra = "cnl::_impl::rep_of_t<%s>" % EL
                     A = erange(L, Ls)
-                    pre = ["a >= %s" % ("-%d" % -A[0] if A[0] else "0"), "a <= %d" % A[1]] if L < 64 or Ls else []
+                    pre = ["a >= %s" % common.lit(A[0]), "a <= %s" % common.lit(A[1])] if L < 64 or Ls else []
                     for sym, nm in (("-", "neg"), ("+", "pos")):
                         rt = "cnl::_impl::rep_of_t<decltype(%sstd::declval<%s>())>" % (sym, EL)
                         obs.append(kern.Ob("%s/eq/%s/%s%d%s" % (cfg, fam, sym, L, "s" if Ls else "u"), rt, [(ra, "a")],
